@@ -105,7 +105,15 @@ def run(ctx) -> None:
     if tg and cm:
         g = cfgs.get(vc.fq)
         tn, cn = g.node_containing(tg[0]), g.node_containing(cm[0])
-        ctx.check("R3", PathCond(g, blocked_nodes=[cn]).reach(tn).is_false(), "vcs.commit: every feasible path to the tag call passes the commit call", "vcs.commit: a tag can be created without / before the commit", "", loc=vc.loc(tg[0]))
+        f = PathCond(g, blocked_nodes=[cn]).reach(tn)
+        if not f.is_false():
+            # in the context of its only caller: conditions of the call site, and "a VCS handle exists only under cfg.commit"
+            from checks.c10 import vcs_handle_implies_commit
+            f = ip.lift(vc, f, "cli._update").drop_unused()
+            if vcs_handle_implies_commit(ctx) and "vcs_api" in f.atoms:
+                f = f & (~BF.var("vcs_api") | BF.var("cfg.commit"))
+        ctx.check("R3", f.is_false(), "vcs.commit: every feasible path to the tag call passes the commit call", "vcs.commit: a tag can be created without / before the commit",
+                  f"without the commit call the tag call is reached when {f.to_dnf()}", loc=vc.loc(tg[0]))
         a = call_arg(tg[0], prog.function("vcs.VCSAPI.tag"), "tag_name")
         ctx.check("R3", a is not None and unparse(a) == "new_version", "vcs.commit: tag_name = new_version", "vcs.commit: the tag is not named by the new version", unparse(tg[0]), loc=vc.loc(tg[0]))
     shapes.check_passthrough(ctx, "R3", "cli._try_update", "cli._update", {"new_version": "new_version"})
